@@ -10,16 +10,20 @@ server script (how the peer answers every attempt of that request):
     fr     "cl" | "chunked" | "close" (close-delimited) | "bodyless"
     sub    "204" | "304" | "head" | "103"      (bodyless only; picks status / method)
     len    body units announced by the framing (0 for bodyless)
-    cut    -1, or the number of body units written before the peer closes (early EOF)
+    cut    9 (none), or the number of body units written before the peer closes (early EOF)
     ka     True keep-alive / False "Connection: close" + the peer closes after the reply
     extra  "none" | "stray" | "smuggle"   unsolicited bytes written in the SAME segment as the reply
     after  "none" | "stray" | "smuggle" | "eof"  done by the peer on the idle connection after the
            caller's op and BEFORE the next checkout (a later segment)
-    late   number of trailing body units withheld until the next request arrives on that connection
-           (suspect S4: a body tail still in flight); 0 in the hard class
+    late   number of trailing units (body cells / chunk terminator) withheld until the next request
+           arrives on that connection (suspect S4: a body tail still in flight); 0 in the hard class
+    shape  "cells" | "http": with "http" the body is  cell, <a 6-unit block that looks like a response
+           head announcing 2 units>, cell, cell  -- still ordinary body bytes of that reply
 caller op:
     kind   "preload" | "read" | "readk" | "release" | "drain" | "close" | "stream" | "ignore"
     k      units for readk
+    hold   True: the caller keeps a reference to the response object until the end of the history;
+           False: it lets go of it right after the op (refcount -> IOBase.__del__ -> close())
 
 Every byte the peer writes carries its origin: the head has an X-Tag header, every body / stray /
 smuggled unit is a fixed-size cell  [<kind><rid>c<cid>n<ordinal>#<offset>]  (kind r = reply body,
@@ -43,7 +47,8 @@ HOST = "h.test"
 _CELL = re.compile(rb"\[([rsm])(\d\d)c(\d\d)n(\d\d)#(\d\d\d)\]\.*")
 _TAG = re.compile(r"^([rsm])(\d\d)c(\d\d)n(\d\d)$")
 
-NOTAG = {"k": "none", "r": 0, "s": 0, "n": 0}
+NOCUT = 9
+NOTAG = {"t": "none", "k": "none", "r": 0, "s": 0, "n": 0, "i": 0}
 
 
 def cell(kind: str, rid: int, cid: int, n: int, i: int, size: int = UNIT) -> bytes:
@@ -75,18 +80,18 @@ def parse_cells(data: bytes, size: int) -> list:
         piece = data[off: off + size]
         m = _CELL.fullmatch(piece) if len(piece) == size else None
         if m is None:
-            out.append({"k": "junk", "r": 0, "s": 0, "n": 0, "i": 0})
+            out.append({"t": "junk", "k": "junk", "r": 0, "s": 0, "n": 0, "i": 0})
         else:
-            out.append({"k": m.group(1).decode(), "r": int(m.group(2)), "s": int(m.group(3)), "n": int(m.group(4)),
-                        "i": int(m.group(5))})
+            out.append({"t": m.group(1).decode(), "k": "cell", "r": int(m.group(2)), "s": int(m.group(3)),
+                        "n": int(m.group(4)), "i": int(m.group(5))})
     return out
 
 
 def parse_tag(value) -> dict:
     m = _TAG.match(value or "")
     if not m:
-        return dict(NOTAG, k="junk" if value else "none")
-    return {"k": m.group(1), "r": int(m.group(2)), "s": int(m.group(3)), "n": int(m.group(4))}
+        return dict(NOTAG, t="junk" if value else "none")
+    return {"t": m.group(1), "k": "head", "r": int(m.group(2)), "s": int(m.group(3)), "n": int(m.group(4)), "i": 0}
 
 
 class World:
@@ -138,45 +143,55 @@ class World:
             key, units = self.withheld_key.pop(cid)
             self.sent[key] += units
         fr, ln, cut = sc["fr"], sc["len"], sc["cut"]
-        lines = []
-        status = 200
-        if fr == "bodyless":
-            status = {"204": 204, "304": 304, "head": 200, "103": 103}[sc["sub"]]
-            if sc["sub"] == "head":
-                lines.append(f"Content-Length: {2 * UNIT}")     # HEAD: length of the absent body
-        elif fr == "cl":
-            lines.append(f"Content-Length: {ln * UNIT}")
+        if fr == "drop":                   # the peer closes without answering
+            self.sent[(rid, cid, n)] = 0
+            self._write(peer, pre)
+            return vnet.Reply(data=pre, close=True)
+        nocut = cut == NOCUT
+        late = sc.get("late", 0) if nocut else 0
+        lines, status = [], 200
+        if sc.get("shape") == "http":      # abstract units: cell, head-shaped block, cell, cell
+            assert fr == "cl" and ln == 4
+            lines.append(f"Content-Length: {3 * UNIT + HEAD}")
+            body_units = [cell("r", rid, cid, n, 0), head("r", rid, cid, n, 200, [f"Content-Length: {2 * UNIT}"]),
+                          cell("r", rid, cid, n, 1), cell("r", rid, cid, n, 2)]
         elif fr == "chunked":
             lines.append("Transfer-Encoding: chunked")
+            body_units = [chunk(cell("r", rid, cid, n, i, UNIT - 6)) for i in range(ln)]
+        elif fr == "bodyless":
+            sub = sc.get("sub", "204")
+            status = {"204": 204, "304": 304, "head": 200, "103": 103}[sub]
+            if sub == "head":
+                lines.append(f"Content-Length: {2 * UNIT}")     # HEAD: length of the absent body
+            body_units = []
+        else:
+            if fr == "cl":
+                lines.append(f"Content-Length: {ln * UNIT}")
+            body_units = [cell("r", rid, cid, n, i) for i in range(ln)]
         if not sc["ka"]:
             lines.append("Connection: close")
-        data = head("r", rid, cid, n, status, lines)
-        nbody = ln if cut < 0 else cut
-        late = sc.get("late", 0) if cut < 0 else 0
-        body_units = []
-        for i in range(nbody):
-            if fr == "chunked":
-                body_units.append(chunk(cell("r", rid, cid, n, i, UNIT - 6)))
-            else:
-                body_units.append(cell("r", rid, cid, n, i))
-        tail_units = []
-        if fr == "chunked" and cut < 0:
-            tail_units.append(LAST_CHUNK)
-        now_units, later_units = body_units + tail_units, []
-        if late:
+        if not nocut:
+            body_units = body_units[:cut]
+        head_bytes = head("r", rid, cid, n, status, lines)
+        now_units = [head_bytes] + body_units + ([LAST_CHUNK] if fr == "chunked" and nocut else [])
+        later_units = []
+        if late:                           # trailing units (possibly the whole reply) are still in flight
             keep = len(now_units) - late
             now_units, later_units = now_units[:keep], now_units[keep:]
-        data += b"".join(now_units)
-        self.sent[(rid, cid, n)] = min(nbody, len(now_units))
+        is_cell = lambda u: u is not LAST_CHUNK and u is not head_bytes and not u.startswith(b"HTTP/")
+        nbody = sum(1 for u in body_units if is_cell(u))
+        data = b"".join(now_units)
+        cells_now = sum(1 for u in now_units if is_cell(u))
+        self.sent[(rid, cid, n)] = cells_now
         if later_units:
             self.withheld[cid] = b"".join(later_units)
-            self.withheld_key[cid] = ((rid, cid, n), nbody - self.sent[(rid, cid, n)])
+            self.withheld_key[cid] = ((rid, cid, n), nbody - cells_now)
         if vs is not None:
             # while a tail is withheld the peer has nothing more to say: a client read must time out
             # (virtually) instead of stalling the inline harness
             vs._script["never_answers"] = bool(later_units)
-        closes = cut >= 0 or not sc["ka"] or fr == "close"
-        if not closes:
+        closes = (not nocut) or not sc["ka"] or fr == "close"
+        if not closes and not later_units:
             data += self.unsolicited(sc["extra"], rid, cid, n)
         self._write(peer, pre + data)
         return vnet.Reply(data=pre + data, close=closes)
@@ -244,7 +259,7 @@ def run_history(hist: dict) -> dict:
                 rid = idx + 1
                 sc, op = step["sc"], step["op"]
                 w.plan[rid] = sc
-                method = "HEAD" if (sc["fr"] == "bodyless" and sc["sub"] == "head") else "GET"
+                method = "HEAD" if (sc["fr"] == "bodyless" and sc.get("sub") == "head") else "GET"
                 a0, p0 = len(w.arrivals), len(w.probes)
                 ev = {"e": "req", "rid": rid, "sc": sc, "out": "response", "err": "", "hdr": dict(NOTAG), "status": 0}
                 r = None
@@ -278,21 +293,27 @@ def run_history(hist: dict) -> dict:
                             r.close()
                             r.release_conn()
                         elif k == "stream":
-                            got = b"".join(r.stream(usz))
+                            for piece in r.stream(usz):
+                                got += piece
                         elif k == "ignore":
-                            held.append(r)
+                            pass
                         else:
                             raise AssertionError(k)
                     except Exception as ex:
                         res, err = _classify(ex)
                     h = ev["hdr"]
                     # the reply this response claims to be (by its X-Tag) -> what the peer wrote for it
-                    sentn = w.sent.get((h["r"], h["s"], h["n"]), 0) if h["k"] == "r" else 0
-                    events.append({"e": "op", "rid": rid, "op": op, "res": res, "err": err,
-                                   "deliv": parse_cells(got or b"", usz), "sentn": sentn})
-                    if op["kind"] != "ignore":
-                        del r
-                    if sc["after"] != "none" and h["k"] == "r":
+                    sentn = w.sent.get((h["r"], h["s"], h["n"]), 0) if h["t"] == "r" else 0
+                    deliv = parse_cells(got or b"", usz)
+                    if any(u["t"] == "junk" for u in deliv):      # tokenise with the other cell size if that fits
+                        alt = parse_cells(got, UNIT if usz != UNIT else UNIT - 6)
+                        if not any(u["t"] == "junk" for u in alt):
+                            deliv = alt
+                    events.append({"e": "op", "rid": rid, "op": op, "res": res, "err": err, "deliv": deliv, "sentn": sentn})
+                    if op.get("hold") or op["kind"] == "ignore":
+                        held.append(r)
+                    del r
+                    if sc["after"] != "none" and h["t"] == "r":
                         if w.after(sc["after"], h["r"], h["s"], h["n"]):
                             events.append({"e": "after", "rid": rid, "what": sc["after"], "s": h["s"]})
             dials = len(w.net.dials)
